@@ -6,6 +6,7 @@ import JanetModel.PegVerify.Sound
 import JanetModel.Unmarsh.BytesSound
 import JanetModel.Unmarsh.BytesMono
 import JanetModel.Unmarsh.NanBoxSound
+import JanetModel.Unmarsh.EnvValidSound
 namespace JanetModel.Props.C10
 open JanetModel.Bytecode JanetModel.Gen.VmAccess
 
@@ -228,5 +229,42 @@ theorem witness_unsafe_real_forges_pointer :
     JanetModel.Unmarsh.NanBox.checktype { NanExamples.good with safe := false }
       (JanetModel.Unmarsh.NanBox.unmarshalReal { NanExamples.good with safe := false } 18445055224944083265) 4 = true ∧
     JanetModel.Unmarsh.NanBox.toPointer NanExamples.good 18445055224944083265 = 1094795585 := by decide
+
+/-! ### run-time validation of untrusted on-stack environments (`janet_env_valid`, fiber.c)
+
+`env_valid_sound` over the tests of the CURRENT fiber.c is `JanetModel.Unmarsh.EnvValidObligations.env_valid_sound`.  Here: for ANY
+source whose `janet_env_valid` makes all four tests and resets the environment on failure, ANY fiber whose image passed
+validation (`FiberWf`), ANY claimed offset and length. -/
+open JanetModel.Unmarsh JanetModel.Unmarsh.EnvValid in
+theorem env_valid_sound_of_shape (S : Shape) (hS : S.allOn = true) (h : FiberHdr) (frames : List EFrame)
+    (hwf : FiberWf h (frames.map (·.hdr))) (offset : Int) (hneg : offset < 0) (len : Nat) :
+    ((envValid S offset len frames h.frame).1 = true →
+        0 < (envValid S offset len frames h.frame).2.1 ∧ (envValid S offset len frames h.frame).2.2 = len ∧
+        ∀ vindex : Nat, vindex < len →
+          (envValid S offset len frames h.frame).2.1 + vindex < (h.stackstart : Int) - frameSizeWords ∧
+          (envValid S offset len frames h.frame).2.1 + vindex < (h.stacktop : Int) + 10) ∧
+    ((envValid S offset len frames h.frame).1 = false →
+        (envValid S offset len frames h.frame).2.1 = 0 ∧ (envValid S offset len frames h.frame).2.2 = 0) :=
+  env_valid_sound S hS h frames hwf offset hneg len
+
+namespace EnvExamples
+open JanetModel.Unmarsh JanetModel.Unmarsh.EnvValid
+def allS : Shape := { onlyNegative := true, startsAtFrame := true, offsetEq := true, envPtrEq := true, funcNonNull := true,
+                      slotcountEq := true, resetsOnFailure := true }
+/-- one entrance frame at index 4 with 2 slots, pointing back at the environment -/
+def fr : EFrame := { hdr := { entrance := true, prevframe := 0, pcdiff := 0, slotcount := 2, bclen := 2, atCall := true, aIsSlot := true },
+                     envIsThis := true, hasFunc := true }
+/-- non-vacuity: the claimed (offset 4, length 2) is accepted, (offset 4, length 2^24) and (offset 5, length 2) are not -/
+example : envValid allS (-4) 2 [fr] 4 = (true, 4, 2) := by decide
+example : envValid allS (-4) 16777216 [fr] 4 = (false, 0, 0) := by decide
+example : envValid allS (-5) 2 [fr] 4 = (false, 0, 0) := by decide
+end EnvExamples
+
+/-- a `janet_env_valid` without the slot-count test: an environment claiming 2^24 values over a 2-slot frame is accepted,
+    `data[4 + vindex]` then reaches far beyond the fiber's stack -/
+theorem witness_env_valid_without_slotcount :
+    ({ EnvExamples.allS with slotcountEq := false } : JanetModel.Unmarsh.EnvValid.Shape).allOn = false ∧
+    JanetModel.Unmarsh.EnvValid.envValid { EnvExamples.allS with slotcountEq := false } (-4) 16777216 [EnvExamples.fr] 4 = (true, 4, 16777216) := by
+  decide
 
 end JanetModel.Props.C10
